@@ -1219,11 +1219,15 @@ class AsyncBackgroundBatcher(Generic[A_contra, R_co]):
                     len(args), self.func,
                 )
                 async for key, result in self.func(args):
-                    fut = futs.pop(key)
+                    fut = futs[key]
                     if isinstance(result, Exception):
                         fut.set_exception(result)
                     else:
                         fut.set_result(result)
+                    # Only forget the future once it has its answer:
+                    # setting it may fail (e.g. a StopIteration can't be
+                    # set on a future) and it must be failed below then
+                    del futs[key]
         except BaseException as e:
             # Also covers errors which aren't an Exception, like the
             # CancelledError of something awaited by the function:
